@@ -87,7 +87,30 @@ class Fuzz:
         genuine block; the altered copy must be refused and the genuine block accepted"""
         survivors, self.survivors = self.survivors, []
         cs = dict(states).get("without_block")
-        if not survivors or cs is None or getattr(self, "pre", None) is None:
+        if cs is None or getattr(self, "pre", None) is None:
+            return
+        # what somebody altering a block would do: grind the nonce (1- and 2-bit changes) until the altered header's id is below
+        # the target again, keeping the proof-of-work evidence of the genuine block -- such copies pass every context-free check
+        # and are refused only because the evidence does not belong to the altered summary
+        try:
+            rb = ref.parse_block(raw)
+            hl, off = len(rb.header_enc()), len(rb.summary_enc()) - 4
+            import itertools
+            ground = []
+            for bits in itertools.chain(((i,) for i in range(32)), itertools.combinations(range(32), 2)):
+                m = bytearray(raw)
+                for b in bits:
+                    m[off + b // 8] ^= 0x80 >> (b % 8)
+                if ref.sha256d(bytes(m[:hl])) < rb.target:
+                    ground.append((bytes(m), ("nonce-bits",) + bits))
+                    if len(ground) >= 2:
+                        break
+            c0 = self.c
+            c0["altered_copies_with_ground_nonce"] = c0.get("altered_copies_with_ground_nonce", 0) + len(ground)
+            survivors = ground + survivors
+        except Exception:
+            pass
+        if not survivors:
             return
         from skv import preempt
         pre, c = self.pre, self.c
